@@ -290,8 +290,22 @@ impl Drop for Tok {
 fn on_poll(id: usize, cx: &Context<'_>) {
     let w = w();
     assert!(w.in_poll, "C03: child polled outside its owner's poll");
-    assert!(!w.done[id], "C03: child polled after it completed");
-    assert!(!w.decided, "C03: child polled after the combinator produced its final result");
+    if w.done[id] {
+        if w.short == 4 {
+            assert!(false, "C03/C07: child polled again after it completed (failed)");
+        } else {
+            assert!(false, "C03: child polled after it completed");
+        }
+    }
+    if w.decided {
+        // the short-circuit clause is also part of the family's own property
+        match w.short {
+            1 => assert!(false, "C03/C06: child polled after the race was decided"),
+            2 => assert!(false, "C03/C05: child polled after try_join saw a failure"),
+            4 => assert!(false, "C03/C07: child polled after race_ok saw a success"),
+            _ => assert!(false, "C03: child polled after the combinator produced its final result"),
+        }
+    }
     assert!(!w.forbidden[id], "C10/C19: child polled before it was allowed to");
     if w.sequential {
         let mut j = 0;
